@@ -52,6 +52,8 @@ RULES = [
 # rule E2: type substitution applied to every extracted item / signature / body
 TYPE_SUBST = [
     ('E2-bufreader', r'BufReader<File>', 'VReader'),
+    ('E2-rowset', r'FnvHashSet<Vec<Value>>', 'VRowSet'),
+    ('E2-rowset-ctor', r'FnvHashSet::default\(\)', 'VRowSet::default()'),
 ]
 
 
